@@ -116,6 +116,14 @@ theorem LinesOf.flatten_rel {esc first ws ls} (h : LinesOf esc first ws ls) :
     · simp only [if_true]
       exact .same h ((EscRel.refl esc t).append ih)
 
+theorem fill_linesOf (W c0 c1 : Nat) (md : Bool) (ws : List Word) :
+    LinesOf (escOf md) true ws (fill W c1 md c0 ws) :=
+  (fillG_linesFrom (escOf md) W c0 c1 ws [] c0 true (fun _ => rfl)).1 rfl
+
+theorem fill_escRel (W c0 c1 : Nat) (md : Bool) (ws : List Word) :
+    EscRel (escOf md) (fill W c1 md c0 ws).flatten ws :=
+  (fill_linesOf W c0 c1 md ws).flatten_rel
+
 /-! ### Width bound -/
 
 /-- A line starting at column `c` respects width `W`, or it is a single unbreakable word. -/
